@@ -84,6 +84,24 @@ BUILT = {
         "known_findings.json."),
   design='DESIGN.md §4 C12',
   technique='deterministic simulation: seeded operation/fault histories incl. restart-from-durable-state, differential oracle against fresh objects'),
+
+ 'C17': dict(
+  text=("Seeded search over histories of store operations (save, "
+        "overwrite, convert along all format pairs, to_file/from_file, load) "
+        "on a scratch directory with injected ENOSPC/EIO faults (before a "
+        "write, after k datasets, at close, on read) and a virtual clock for "
+        "_date; objects of every registered class and nested dictionaries "
+        "are composed by a seeded generator. After every operation every "
+        "path whose last write succeeded is loaded and compared structurally "
+        "(kinds, dtypes, shapes, bytes; emg3d objects field by field) with a "
+        "reference map. The single save/load stratum is plain seeded "
+        "generation and is reported as such."),
+  note=("Trusted: the checker's structural equality; h5py/numpy/json run "
+        "for real, faults are injected at dataset/file granularity (no "
+        "byte-level torn HDF5 writes). One known finding (npz drops empty "
+        "dictionaries) is listed in known_findings.json."),
+  design='DESIGN.md §4 C17',
+  technique='deterministic simulation of a file store: seeded operation/fault histories against a reference map'),
 }
 
 NA = {
